@@ -21,7 +21,8 @@ class C15(core.Check):
                   "sse_in_response_fragmentation_independent (close-delimited and chunked, via the response reader), sse_refines_spec (the incremental reader equals the "
                   "whole-stream specification splitLines + fold), terminator_invariant (for lines without CR/LF any per-line choice among CRLF/LF/CR that is followed by more "
                   "input gives the same events; the inherent CR-then-LF ambiguity is excluded by the hypothesis), lone_cr_waits / cr_then_lf_is_one_terminator (a CR that ends the buffer is not yet a terminator; with the LF it is one CRLF). "
-                  "Reconnect boundary (a sequence of streams through one Respondent): reconnect_keeps_only_id_and_retry, evented_head_starts_fresh (the next evented head builds a new "
+                  "Reconnect boundary (a sequence of streams through one Respondent; the real Client is run on the same sequences for the oracle): reconnect_keeps_only_id_and_retry, respSeq_cons (a new "
+                  "connection starts from an empty receive buffer), evented_head_starts_fresh (the next evented head builds a new "
                   "event source over an empty line buffer whatever the dropped stream left), absorb_pieces, stream_events_depend_only_on_own_bytes (events of stream n+1 = the reader run on its own "
                   "body bytes from the empty state; last event id / retry its own when set, else carried). Tied to the code by the correspondence run and the regenerated eols table; the WHATWG reading itself is checked by the implementation-side oracle.")
     level_note = ("Trusted: Lean kernel; translator; sampled correspondence; UTF-8 replacement decoding is modelled (utf8Replace) and exercised by the correspondence on "
@@ -83,7 +84,12 @@ class C15(core.Check):
                             drop = None
                     else:                    # chunked: dropped after a complete chunk (lines and chunks are independent), or complete
                         bs = hp.chunk_boundaries(st, sizes)
-                        drop = rng.choice(bs) if r < 0.6 else None
+                        if r < 0.35:
+                            drop = rng.choice(bs)
+                        elif r < 0.65:       # inside a chunk, a size line or a chunk end: the stream never ends on its own
+                            drop = rng.randrange(bs[0], len(w) + 1)
+                        else:
+                            drop = None
                     wl = len(w) if drop is None else drop
                     cuts = hp.cuts_for(rng, w[:wl], rng.choice(["none", "two", "uniform", "term", "ones"] if wl < 250 else ["none", "two", "uniform"]))
                     sts.append((mode, st, sizes, drop, cuts))
@@ -138,13 +144,14 @@ class C15(core.Check):
         """every connection delivers exactly the events its own bytes dispatch (a drop discards the unfinished line and
         event); last event id and retry are the stream's own when it sets them, else the ones carried over"""
         bad = []
-        cut, whole = obs
+        cut, whole, client = obs
         if cut != whole:
             bad.append("fragmented-differs-from-whole")
-        if hp.has_escape(obs):
+        if hp.has_escape((cut, whole)) or client[0] is not None:
             bad.append("exception-escaped")
             return bad
         leid, retry = None, 100
+        expected = []
         wires = hp.sseq_wires(case)
         for (mode, stream, sizes, drop, _), w, (res, tail) in zip(case[1], wires, cut):
             # the body bytes that arrived on this connection
@@ -154,16 +161,23 @@ class C15(core.Check):
             else:
                 bs = hp.chunk_boundaries(stream, sizes)
                 _, chunks = hp.enc_wire(stream, sizes, [], [])
-                body = stream if drop is None else b"".join(chunks[:bs.index(drop)])
+                # the event source gets the data of a chunk when the chunk is complete
+                body = stream if drop is None else b"".join(chunks[:max(0, sum(1 for x in bs if x <= drop) - 1)])
             ev, own_id, own_retry = hp.whatwg_events(body, want_set=True)
+            expected.append(ev)
             if own_id is not None:
                 leid = own_id
             if own_retry is not None:
                 retry = own_retry
             dropped_chunked = mode == "chunked" and drop is not None and drop < len(hp.sser_wire(mode, stream, sizes))
             if dropped_chunked:
-                # cut off between chunks: the response ends as a premature closure; the events so far were delivered
-                if not res or res[-1][0] != "err":
+                # cut off: between chunks the response ends as a premature closure, inside a chunk / size line it just
+                # stops; either way the events of the complete chunks were delivered and nothing of it may reach the
+                # next connection
+                if [m for m in res if m[0] == "ok"]:
+                    bad.append("dropped-chunked-stream-reported-complete")
+                    continue
+                if drop in hp.chunk_boundaries(stream, sizes) and (not res or res[-1][0] != "err"):
                     bad.append("dropped-chunked-stream-not-ended")
                     continue
                 got_ev = [_ev(e) for e in (tail[2] if len(tail) > 2 else [])]
@@ -182,6 +196,14 @@ class C15(core.Check):
                     bad.append("stray-events")
             if got_ev != ev:
                 bad.append("events-differ-from-stream")
+        # the same through the real Client (scripted connector, reconnects): what it delivered during each connection
+        esc, per, cleid, cretry = client
+        if [[_ev(e) for e in evs] for evs in per] != expected[:len(per)] or len(per) != len(expected):
+            bad.append("client-events-differ-from-streams")
+        if cleid != leid:
+            bad.append("client-last-event-id")
+        if cretry != retry:
+            bad.append("client-retry")
         return bad
 
     def oracle(self, case, obs):
@@ -223,7 +245,8 @@ class C15(core.Check):
                     f.append("sseq:complete:" + mode)
                 else:
                     last = w[:drop][-1:]
-                    f.append("sseq:drop:" + mode + (":after-cr" if last == b"\r" else ":line-end" if last == b"\n" else ":mid-line"))
+                    inside = mode == "chunked" and drop not in hp.chunk_boundaries(stream, sizes)
+                    f.append("sseq:drop:" + mode + (":inside-chunk" if inside else ":after-cr" if last == b"\r" else ":line-end" if last == b"\n" else ":mid-line"))
             return f
         f = [case[0] if case[0] == "sse" else "sser:" + case[1]]
         s = case[1] if case[0] == "sse" else case[2]
